@@ -207,9 +207,39 @@ func c27Atom(g kit.G, depth int) string {
 	}
 }
 
+// c27Lookalikes are texts that look like regexp syntax; they are rendered as
+// literals (every metacharacter escaped in some way), so that a printer which
+// forgets one escape turns them back into syntax.
+var c27Lookalikes = []string{`a{2}`, `x{1,3}`, `b{2,}`, `{3}`, `[a-z]`, `[^a]`, `(a|b)`, `(?i)a`, `(?:ab)`, `a*`, `a+`, `a+?`, `ab?`, `^a`, `a$`, `^$`, `\d`, `\pL`, `\Qa`, `a|b`, `|`, `a.c`, `.*`, `a\`, `\b`, `(`, `)`, `[`, `]`, `a-z`, `\n`, `\x41`, `\z`}
+
+func c27Lookalike(g kit.G) string {
+	t := kit.Pick(g, c27Lookalikes, "look")
+	if g.Bool(20, "lookq") && !strings.Contains(t, `\E`) {
+		return `\Q` + t + `\E`
+	}
+	var sb strings.Builder
+	for _, r := range t {
+		if strings.ContainsRune(`\.+*?()|[]{}^$`, r) {
+			switch g.Int(0, 5, "lookhow") {
+			case 0:
+				fmt.Fprintf(&sb, `\x%02x`, r)
+			case 1:
+				sb.WriteString(`[` + `\` + string(r) + `]`) // one-rune class: parses to a literal
+			default:
+				sb.WriteString(`\` + string(r))
+			}
+		} else {
+			sb.WriteRune(r)
+		}
+	}
+	return sb.String()
+}
+
 func c27Piece(g kit.G, depth int) string {
 	k := g.Int(0, 99, "piece")
 	switch {
+	case k >= 92:
+		return c27Lookalike(g)
 	case k < 9:
 		return kit.Pick(g, c27Anchors, "anchor")
 	case k < 12:
@@ -480,7 +510,7 @@ func c27Ops(re *syntax.Regexp, into map[string]bool) {
 
 type c27Engines struct {
 	orig, printed, optStd, optZoekt *regexp.Regexp
-	printedText, optStdText, optZText string
+	origStdText, printedText, optStdText, optZText string
 	ops                               map[string]bool
 }
 
@@ -500,6 +530,7 @@ func c27Compile(pattern string) (*c27Engines, error) {
 	}
 	e := &c27Engines{ops: map[string]bool{}}
 	c27Ops(r0, e.ops)
+	e.origStdText = r0.String()
 	e.orig, err = regexp.Compile("(?m)" + pattern)
 	if err != nil {
 		// the parser accepted it but the stdlib compiler did not (program too large): outside the domain
@@ -619,7 +650,7 @@ func c27Run(rec *kit.Recorder, c c27Case) error {
 	if e.printedText != c.Pattern {
 		labels = append(labels, "printout:differs-from-input")
 	}
-	if e.optStdText != e.orig.String()[len("(?m)"):] {
+	if e.optStdText != e.origStdText {
 		labels = append(labels, "optimise:changed-tree")
 	}
 	nt := kinds >= 2 && pos > 0 && neg > 0
